@@ -37,25 +37,55 @@ def gen(rng, idx, tier):
     for e in ev:
         if e["m"] not in mix:
             mix[e["m"]] = rng.choice(bus.FRAME_FORMATS + bus.WHOLE_FORMATS + ["ebyte", "actisense"])
-    return {"events": ev, "mix": {str(k): v for k, v in mix.items()}}
+    # every listener gets the same decoder settings, drawn per run: what a format carries must not depend on them either
+    cfg = rng.choice([{}, {}, {}, {"build_network_map": True}, {"build_network_map": True, "exclude_manufacturer_code": ["Garmin"]},
+                      {"exclude_pgns": [129029, "vesselHeading"]}, {"preferred_units": {"ANGLE": "deg", "TEMPERATURE": "C"}}])
+    return {"events": ev, "mix": {str(k): v for k, v in mix.items()}, "config": cfg,
+            "clock": rng.choice([0.0, 0.0, 100.0, 599.0, 601.0, 5000.0])}
 
 
 def execute(plan):
     from nmea2000.decoder import NMEA2000Decoder
-    bus.with_clock(None)
+    from .common import decoder_kwargs
+    vc = bus.VClock(0.0)
+    bus.with_clock(vc)
     ff = bus.FRAME_FORMATS
     wf = bus.WHOLE_FORMATS
-    fl = {f: NMEA2000Decoder() for f in ff}
-    wl = {f: NMEA2000Decoder() for f in wf}
-    mixed = NMEA2000Decoder()
+    kw = decoder_kwargs(plan.get("config") or {})
+    fl = {f: NMEA2000Decoder(**kw) for f in ff}
+    wl = {f: NMEA2000Decoder(**kw) for f in wf}
+    mixed = NMEA2000Decoder(**kw)
+    vc.t = plan.get("clock", 0.0)        # all listeners were created at t=0; the history plays at this wall-clock time
     mix = plan.get("mix") or {}
     v = []
     log = []
     st = {"frames": 0, "fast_completed": 0, "single_decoded": 0, "whole_compared": 0}
     seen = {}
+    admission = bool(kw.get("build_network_map") or kw.get("exclude_manufacturer_code") or kw.get("include_manufacturer_code"))
+    last_first = {}
+    ambiguous = set()
+    open_msgs = {}        # message -> source, for fast messages whose first frame was seen and last not yet
+    tainted = set()       # messages during which their source (re-)claimed: admission may have changed mid-message
     for evno, e in enumerate(plan["events"]):
         st["frames"] += 1
         seen.setdefault(e.get("m"), []).append(e.get("i", 0))
+        if e["k"] == "fast":
+            open_msgs[e["m"]] = e["f"][1]
+            if e.get("i", 0) == 0:
+                # a first frame that repeats the counter of an *unfinished* message on its stream is ambiguous by
+                # protocol (it can only arise when the minimiser removed frames): not judged
+                key = tuple(e["f"][:3])
+                c = bytes.fromhex(e["f"][4])[:1]
+                c = (c[0] >> 5) if c else None
+                prev = last_first.get(key)
+                if prev is not None and prev[0] == c and (seen.get(prev[1]) != list(range(prev[2])) or prev[1] in ambiguous or prev[1] in tainted):
+                    tainted.add(e["m"])
+                    ambiguous.add(e["m"])
+                last_first[key] = (c, e["m"], e.get("n", 1))
+        if admission and e["f"][0] == 60928:
+            for mm, src in open_msgs.items():
+                if src == e["f"][1]:
+                    tainted.add(mm)
         res = {}
         for f in ff:
             m, exc = bus.feed_frame(fl[f], f, e["f"])
@@ -83,7 +113,8 @@ def execute(plan):
                               "(this one frame-wise as %s) disagrees with a %s-only decoder at frame %d of %d of PGN %d src %d: %s vs %s" %
                               (mf, "EByte", e.get("i", 0), e.get("n", 1), e["f"][0], e["f"][1], _b(r), _b(base))))
                 break
-        elif mf in wf and last and e.get("whole") is not None and seen.get(e.get("m")) == list(range(e.get("n", 1))):
+        elif mf in wf and last and e.get("whole") is not None and seen.get(e.get("m")) == list(range(e.get("n", 1))) \
+                and e.get("m") not in tainted:
             pgn, src, dst, prio, _ = e["f"]
             m, exc = bus.feed_whole(mixed, mf, [pgn, src, dst, prio, e["whole"]])
             r = ("exc", type(exc).__name__) if exc is not None else msgs.key(m, iso=True)
@@ -98,7 +129,7 @@ def execute(plan):
             break
         if is_msg:
             st["fast_completed" if e["k"] == "fast" else "single_decoded"] += 1
-        if last and e.get("whole") is not None and seen.get(e.get("m")) == list(range(e.get("n", 1))):
+        if last and e.get("whole") is not None and seen.get(e.get("m")) == list(range(e.get("n", 1))) and e.get("m") not in tainted:
             pgn, src, dst, prio, _ = e["f"]
             for f in wf:
                 m, exc = bus.feed_whole(wl[f], f, [pgn, src, dst, prio, e["whole"]])
@@ -112,6 +143,8 @@ def execute(plan):
                     break
             if v:
                 break
+        if last:
+            open_msgs.pop(e.get("m"), None)
         log.append(base[:5] if isinstance(base, tuple) else base)
     h = hashlib.sha256(repr(([e["f"] for e in plan["events"]], log)).encode()).hexdigest()
     return {"violations": v, "digest": h, "stats": st,
